@@ -1,4 +1,6 @@
 import GenjaxModel.Proofs.Smc
+import GenjaxModel.Proofs.SmcInit  -- (c10init block at the end of this file)
+import GenjaxModel.Proofs.SmcInitWeight  -- (c10init block at the end of this file)
 /-!
 # C10 — SMC particles are properly weighted; the evidence estimate is unbiased
 
@@ -45,3 +47,531 @@ theorem C10_smc_unbiased (steps : List (Step K X)) (s : Sys K X)
   smc_unbiased steps s hN hq hk htrig φ
 
 end Genjax.Smc
+
+/-! ==============================================================================================
+    BEGIN work package `c10init`: `init` / `extend` WITH GENERATIVE FUNCTIONS ARE PROPERLY WEIGHTED
+    (model `Model/SmcInit.lean`, proofs `Proofs/SmcInit.lean`, `Proofs/SmcInitWeight.lean`).
+
+    The theorems above speak about an abstract particle system (states, proposal kernels `q`,
+    incremental weights `G`).  Here the kernels and weights are what smc.py computes through the
+    generative function interface (`Model/GfiDist.lean`: finite-support randomness, linear-domain
+    weights):
+      `initParticleD … none`            `target.generate(constraints, *args)`
+      `initParticleD … (some (q, qa))`  `q.simulate`, `target.merge(proposal_choices, constraints)`,
+                                        `target.generate(merged)`, weight `w · exp(proposal score)`
+                                        `= w / q(z)`
+      `extendParticleD`                 the same per particle in `extend` (there the PROPOSAL is the
+                                        second argument of the merge); incremental weight
+    Notation: `ys` / `Z` list (without repetition) the complete choice maps of the target / of the
+    proposal (`coversB` is an executable check); `p(y) = assessP y` the joint mass; `obsF F t` a
+    function of the observable trace (choice map, return value); `y.agreeWith x` = "`y ⊇ x`".
+    Programs: Distribution / Fn / Vmap / Scan at any depth and Conds whose branches have the same shape
+    (`condOK`, as in C01/C02; mixed-shape Conds are excluded for the reason shown there).
+    ============================================================================================== -/
+namespace Genjax.Smc
+open Genjax FinDist
+
+section C10Init
+variable {K : Type} [Field K] {R : Type} [AddCommGroup R] (pd : PD K) (P : Prims R) (cfg : Cfg)
+
+/-- **`init` with the default proposal is properly weighted**: for every function `F` of the
+    observable trace, `E[w · F(trace)] = Σ_{y ⊇ obs} p(y) · F(y, retval(y))`. -/
+theorem C10_init_default_properly_weighted (hpd : pd.WF) (hnorm : pd.Normalised) (g : GF)
+    (hc : g.condOK = true) (hv : g.vmapOK cfg = true) (targs : List Val) (obs : CM) (ys : List CM)
+    (hnd : ys.Nodup)
+    (hcov : ∀ t, some t ∈ supp (g.simD pd P targs) → ∃ y ∈ ys, t.choices = some y)
+    (hshape : ∀ y ∈ ys, g.skel = some y.skel) (F : CM → Val → K) :
+    E (initParticleD pd P cfg g targs obs none) (optK fun tw => tw.2 * obsF F tw.1)
+      = sumK (ys.map fun y =>
+          if y.agreeWith obs then massOf (g.assessP pd y targs) (F y) else 0) :=
+  init_default_properly_weighted pd P cfg hpd hnorm g hc hv targs obs ys hnd hcov hshape F
+
+/-- the same against the target's own distribution, without enumerating choice maps:
+    `E[w · F(trace)] = E_{t ∼ simulate}[1{t agrees with obs} · F(t)]` -/
+theorem C10_init_default_properly_weighted_sim (hpd : pd.WF) (hnorm : pd.Normalised) (g : GF)
+    (hc : g.condOK = true) (hv : g.vmapOK cfg = true) (targs : List Val) (obs : CM)
+    (F : CM → Val → K) :
+    E (initParticleD pd P cfg g targs obs none) (optK fun tw => tw.2 * obsF F tw.1)
+      = E (g.simD pd P targs) (optK fun t => t.agS obs * obsF F t) :=
+  init_default_properly_weighted_sim pd P cfg hpd hnorm g hc hv targs obs F
+
+/-- **`E[w] = evidence`**: the expected weight of a default-proposal particle is the marginal
+    likelihood of the constraints, `Σ_{y ⊇ obs} p(y)` -/
+theorem C10_init_default_evidence (hpd : pd.WF) (hnorm : pd.Normalised) (g : GF)
+    (hc : g.condOK = true) (hv : g.vmapOK cfg = true) (targs : List Val) (obs : CM) (ys : List CM)
+    (hnd : ys.Nodup)
+    (hcov : ∀ t, some t ∈ supp (g.simD pd P targs) → ∃ y ∈ ys, t.choices = some y)
+    (hshape : ∀ y ∈ ys, g.skel = some y.skel) :
+    E (initParticleD pd P cfg g targs obs none) (optK fun tw => tw.2)
+      = sumK (ys.map fun y => if y.agreeWith obs then pmassOf (g.assessP pd y targs) else 0) :=
+  init_default_evidence pd P cfg hpd hnorm g hc hv targs obs ys hnd hcov hshape
+
+/-- **`init` with a custom proposal is properly weighted, for a proposal covering ANY subset of the
+    unobserved addresses** (all of them, or a strict subset — `generate` then fills the rest from the
+    prior).  Hypotheses: the proposal never traces an address twice; `hmerge`: the merge does not
+    raise and `y ⊇ merged ⇔ y ⊇ obs ∧ y ⊇ z` (holds when constraints and proposal choices are dicts
+    over disjoint addresses: `C10_merge_disjoint`; it FAILS when the proposal also proposes an
+    observed address: `C10_init_overlap_cex`); `huniq`: a complete choice map of the target agrees
+    with at most one choice map of the proposal; `hdom` (DOMINATION): every completion of the
+    constraints with non-zero joint mass restricts to a proposal choice map of non-zero proposal
+    mass.  Then `E[w · F(trace)] = Σ_{y ⊇ obs} p(y) · F(y, retval(y))`, exactly as for the default
+    proposal. -/
+theorem C10_init_proposal_properly_weighted (hpd : pd.WF) (hnorm : pd.Normalised) (g : GF)
+    (hc : g.condOK = true) (hv : g.vmapOK cfg = true) (targs : List Val) (obs : CM) (q : GF)
+    (hqn : q.noCollide = true) (hqc : q.condOK = true) (qargs : List Val)
+    (Z : List CM) (hZnd : Z.Nodup)
+    (hZcov : ∀ t, some t ∈ supp (q.simD pd P qargs) → ∃ z ∈ Z, t.choices = some z)
+    (hZshape : ∀ z ∈ Z, q.skel = some z.skel)
+    (ys : List CM) (hnd : ys.Nodup)
+    (hcov : ∀ t, some t ∈ supp (g.simD pd P targs) → ∃ y ∈ ys, t.choices = some y)
+    (hshape : ∀ y ∈ ys, g.skel = some y.skel)
+    (hmerge : ∀ z ∈ Z, ∃ m, smcMerge true obs z = some m ∧
+      ∀ y ∈ ys, y.agreeWith m = (y.agreeWith obs && y.agreeWith z))
+    (huniq : ∀ y ∈ ys, ∀ z1 ∈ Z, ∀ z2 ∈ Z,
+      y.agreeWith z1 = true → y.agreeWith z2 = true → z1 = z2)
+    (hdom : ∀ y ∈ ys, y.agreeWith obs = true → pmassOf (g.assessP pd y targs) ≠ 0 →
+      ∃ z ∈ Z, y.agreeWith z = true ∧ pmassOf (q.assessP pd z qargs) ≠ 0)
+    (F : CM → Val → K) :
+    E (initParticleD pd P cfg g targs obs (some (q, qargs))) (optK fun tw => tw.2 * obsF F tw.1)
+      = sumK (ys.map fun y =>
+          if y.agreeWith obs then massOf (g.assessP pd y targs) (F y) else 0) :=
+  proposal_properly_weighted pd P cfg hpd hnorm true g hc hv targs obs q hqn hqc qargs Z hZnd hZcov
+    hZshape ys hnd hcov hshape hmerge huniq hdom F
+
+/-- **`E[w] = evidence`** for `init` with a custom proposal (same hypotheses) -/
+theorem C10_init_proposal_evidence (hpd : pd.WF) (hnorm : pd.Normalised) (g : GF)
+    (hc : g.condOK = true) (hv : g.vmapOK cfg = true) (targs : List Val) (obs : CM) (q : GF)
+    (hqn : q.noCollide = true) (hqc : q.condOK = true) (qargs : List Val)
+    (Z : List CM) (hZnd : Z.Nodup)
+    (hZcov : ∀ t, some t ∈ supp (q.simD pd P qargs) → ∃ z ∈ Z, t.choices = some z)
+    (hZshape : ∀ z ∈ Z, q.skel = some z.skel)
+    (ys : List CM) (hnd : ys.Nodup)
+    (hcov : ∀ t, some t ∈ supp (g.simD pd P targs) → ∃ y ∈ ys, t.choices = some y)
+    (hshape : ∀ y ∈ ys, g.skel = some y.skel)
+    (hmerge : ∀ z ∈ Z, ∃ m, smcMerge true obs z = some m ∧
+      ∀ y ∈ ys, y.agreeWith m = (y.agreeWith obs && y.agreeWith z))
+    (huniq : ∀ y ∈ ys, ∀ z1 ∈ Z, ∀ z2 ∈ Z,
+      y.agreeWith z1 = true → y.agreeWith z2 = true → z1 = z2)
+    (hdom : ∀ y ∈ ys, y.agreeWith obs = true → pmassOf (g.assessP pd y targs) ≠ 0 →
+      ∃ z ∈ Z, y.agreeWith z = true ∧ pmassOf (q.assessP pd z qargs) ≠ 0) :
+    E (initParticleD pd P cfg g targs obs (some (q, qargs))) (optK fun tw => tw.2)
+      = sumK (ys.map fun y => if y.agreeWith obs then pmassOf (g.assessP pd y targs) else 0) :=
+  proposal_evidence pd P cfg hpd hnorm true g hc hv targs obs q hqn hqc qargs Z hZnd hZcov
+    hZshape ys hnd hcov hshape hmerge huniq hdom
+
+/-- **merge of disjoint dicts** (`init`: `cs = true`, constraints second; `extend`: `cs = false`,
+    proposal second): if the constraints and every choice map of the proposal are dicts over disjoint
+    addresses (nested dicts compared recursively; `CM.disjB`, executable) the merge never raises and a
+    complete choice map agrees with the merged constraint iff it agrees with both parts — the
+    hypothesis `hmerge` of the proper-weighting theorems. -/
+theorem C10_merge_disjoint (cs : Bool) (obs : CM) (Z ys : List CM)
+    (hd : ∀ z ∈ Z, CM.disjB obs z = true) :
+    ∀ z ∈ Z, ∃ m, smcMerge cs obs z = some m ∧
+      ∀ y ∈ ys, y.agreeWith m = (y.agreeWith obs && y.agreeWith z) :=
+  hmerge_of_disjoint cs obs Z ys hd
+
+/-- **The weight formula** of a particle with a custom proposal (`init`: `cs = true`; `extend`:
+    `cs = false`).  After the proposal produced `z` with mass `q(z) = qr.1 ≠ 0` and the merged
+    constraint is `m`, for every complete choice map `y` of the target's shape:
+    (i)  the expected total weight collected on the outcome `y` is `1{y ⊇ m} · p(y) / q(z)`;
+    (ii) if the total weight is `W` on every run ending in `y` then
+         `W · q(z) · fillProb(m, y) = 1{y ⊇ m} · p(y)`, where `fillProb(m, y)` is the probability that
+         `generate` fills the sites `m` leaves open as in `y` (the product of their prior masses):
+         `W = p(y) / (q(z) · Π_{sites filled by generate} prior mass)`.
+    So the prior masses of the filled sites are divided out exactly once (by `generate`, whose weight
+    only multiplies the masses of the constrained sites) and the proposal mass once.  Dividing the
+    FULL joint `p(y)` by `q(z)` alone is a different number whenever a site is filled:
+    `C10_init_wrong_formula_cex`. -/
+theorem C10_init_proposal_weight_formula (hpd : pd.WF) (hnorm : pd.Normalised) (cs : Bool) (g : GF)
+    (hc : g.condOK = true) (hv : g.vmapOK cfg = true) (targs : List Val) (obs : CM) (q : GF)
+    (qargs : List Val) (z m : CM) (qr : K × Val) (hm : smcMerge cs obs z = some m)
+    (hq : q.assessP pd z qargs = some qr) (hq0 : qr.1 ≠ 0) (y : CM)
+    (hs : g.skel = some y.skel) :
+    E (afterProposalD pd P cfg cs g targs obs q qargs z)
+        (optK fun tw => if tw.1.choices = some y then tw.2 else 0)
+      = agO (some m) y * pmassOf (g.assessP pd y targs) / qr.1 ∧
+    ∀ W : K, (∀ tw, some tw ∈ supp (afterProposalD pd P cfg cs g targs obs q qargs z) →
+        tw.1.choices = some y → tw.2 = W) →
+      W * (qr.1 * fillProb pd P cfg g (some m) targs y)
+        = agO (some m) y * pmassOf (g.assessP pd y targs) :=
+  init_proposal_weight_formula pd P cfg hpd hnorm cs g hc hv targs obs q qargs z m qr hm hq hq0 y hs
+
+/-- **the weight `generate` returns is a function of the constraint and of the generated choice map**
+    (every program whose Conds are `condOK`, any constraint / arguments): two runs of `generate` that
+    end in the same choice map carry the same weight (the hidden branch of a Cond is drawn too, but
+    does not enter the weight). -/
+theorem C10_generate_weight_deterministic (g : GF) (hc : g.condOK = true) (ox : Option CM)
+    (args : List Val) (tw tw' : Tr R × K) (h : some tw ∈ supp (g.generateD pd P cfg ox args))
+    (h' : some tw' ∈ supp (g.generateD pd P cfg ox args)) (y : CM) (hy : tw.1.choices = some y)
+    (hy' : tw'.1.choices = some y) : tw.2 = tw'.2 :=
+  generateD_weight_det pd P cfg g hc ox args tw tw' h h' y hy hy'
+
+/-- **The weight formula on EVERY run** (supersedes part (ii) of `C10_init_proposal_weight_formula`,
+    whose constancy assumption is discharged by `C10_generate_weight_deterministic`).  After the
+    proposal produced `z` (`q(z) = qr.1 ≠ 0`, merged constraint `m`), every run of the particle that
+    ends in the complete choice map `y` has a total weight `w` with
+    `w · q(z) · fillProb(m, y) = 1{y ⊇ m} · p(y)`:
+    `w = p(y) / (q(z) · Π_{sites filled by generate} prior mass)`. -/
+theorem C10_init_proposal_weight_formula_run (hpd : pd.WF) (hnorm : pd.Normalised) (cs : Bool)
+    (g : GF) (hc : g.condOK = true) (hv : g.vmapOK cfg = true) (targs : List Val) (obs : CM)
+    (q : GF) (qargs : List Val) (z m : CM) (qr : K × Val) (hm : smcMerge cs obs z = some m)
+    (hq : q.assessP pd z qargs = some qr) (hq0 : qr.1 ≠ 0) (y : CM)
+    (hs : g.skel = some y.skel) (tw : Tr R × K)
+    (htw : some tw ∈ supp (afterProposalD pd P cfg cs g targs obs q qargs z))
+    (hy : tw.1.choices = some y) :
+    tw.2 * (qr.1 * fillProb pd P cfg g (some m) targs y)
+      = agO (some m) y * pmassOf (g.assessP pd y targs) :=
+  weight_formula_run pd P cfg hpd hnorm cs g hc hv targs obs q qargs z m qr hm hq hq0 y hs tw htw hy
+
+/-- the weight formula as a CONDITIONAL MEAN, without any assumption on the runs: given that the
+    particle ends in the choice map `y` (guard: `fillProb ≠ 0`, `y` is a possible outcome) the mean
+    total weight is `1{y ⊇ m} · p(y) / (q(z) · fillProb(m, y))` -/
+theorem C10_init_proposal_weight_formula_mean (hpd : pd.WF) (hnorm : pd.Normalised) (cs : Bool)
+    (g : GF) (hc : g.condOK = true) (hv : g.vmapOK cfg = true) (targs : List Val) (obs : CM)
+    (q : GF) (qargs : List Val) (z m : CM) (qr : K × Val) (hm : smcMerge cs obs z = some m)
+    (hq : q.assessP pd z qargs = some qr) (hq0 : qr.1 ≠ 0) (y : CM)
+    (hs : g.skel = some y.skel) (hfill : fillProb pd P cfg g (some m) targs y ≠ 0) :
+    E (afterProposalD pd P cfg cs g targs obs q qargs z)
+        (optK fun tw => if tw.1.choices = some y then tw.2 else 0)
+      / fillProb pd P cfg g (some m) targs y
+      = agO (some m) y * pmassOf (g.assessP pd y targs)
+          / (qr.1 * fillProb pd P cfg g (some m) targs y) :=
+  init_proposal_weight_formula_mean pd P cfg hpd hnorm cs g hc hv targs obs q qargs z m qr hm hq
+    hq0 y hs hfill
+
+/-- **the code's `target_weight + proposal_score` IS `w / q(z)`**: `particleScoreD` reads the
+    proposal trace's stored score as smc.py does (linear domain: `w · e(score)`), the model particle
+    `proposalParticleD` (used by all theorems of this block) divides by the mass `q.assessP` assigns
+    to the proposal's choice map.  When the masses are the exponentials of the log densities
+    (`pm = e ∘ lp`, `e 0 = 1`, `e (a + b) = e a · e b`) the two have the same expectation against
+    every test function (every proposal, target, constraint, merge order): the stored score of a
+    simulated trace is `−log q(z)`. -/
+theorem C10_init_weight_is_score (e : R → K) (he0 : e 0 = 1)
+    (hadd : ∀ a b, e (a + b) = e a * e b) (hpm : ∀ d a v, pd.pm d a v = e (P.lp d a v))
+    (cs : Bool) (g : GF) (targs : List Val) (obs : CM) (q : GF) (qargs : List Val)
+    (φ : Tr R × K → K) :
+    E (particleScoreD pd P cfg e cs g targs obs q qargs) (optK φ)
+      = E (proposalParticleD pd P cfg cs g targs obs q qargs) (optK φ) :=
+  particleScore_eq pd P cfg e he0 hadd hpm cs g targs obs q qargs φ
+
+/-- non-vacuity of the tie's hypotheses: integer log densities `condExP`, base-2 exponential -/
+example : ∃ (e : ℤ → ℚ) (pd : PD ℚ), e 0 = 1 ∧ (∀ a b, e (a + b) = e a * e b) ∧
+    (∀ d a v, pd.pm d a v = e (condExP.lp d a v)) :=
+  ⟨fun n => (2 : ℚ) ^ n, ⟨fun d a => [condExP.draw d a], fun d a v => (2 : ℚ) ^ (condExP.lp d a v)⟩,
+    by simp, fun a b => zpow_add₀ (by norm_num) a b, fun _ _ _ => rfl⟩
+
+/-- **one `extend` step with the default proposal is properly weighted**: from a particle of weight
+    `w₀` the new weight is `w₀ · w_incr`, and
+    `E[w₀ · w_incr · F(new trace)] = w₀ · Σ_{y ⊇ obs} p(y) F(y, retval(y))`, `p` the joint mass of
+    the extended target at this particle's arguments `targs` -/
+theorem C10_gfi_extend_properly_weighted (hpd : pd.WF) (hnorm : pd.Normalised) (g : GF)
+    (hc : g.condOK = true) (hv : g.vmapOK cfg = true) (targs : List Val) (obs : CM) (ys : List CM)
+    (hnd : ys.Nodup)
+    (hcov : ∀ t, some t ∈ supp (g.simD pd P targs) → ∃ y ∈ ys, t.choices = some y)
+    (hshape : ∀ y ∈ ys, g.skel = some y.skel) (w0 : K) (F : CM → Val → K) :
+    E (extendParticleD pd P cfg g targs obs none) (optK fun tw => (w0 * tw.2) * obsF F tw.1)
+      = w0 * sumK (ys.map fun y =>
+          if y.agreeWith obs then massOf (g.assessP pd y targs) (F y) else 0) :=
+  extend_default_properly_weighted pd P cfg hpd hnorm g hc hv targs obs ys hnd hcov hshape w0 F
+
+/-- **one `extend` step with a custom extension proposal is properly weighted** (hypotheses as in
+    `C10_init_proposal_properly_weighted`, with the merge order of `extend`) -/
+theorem C10_gfi_extend_proposal_properly_weighted (hpd : pd.WF) (hnorm : pd.Normalised) (g : GF)
+    (hc : g.condOK = true) (hv : g.vmapOK cfg = true) (targs : List Val) (obs : CM) (q : GF)
+    (hqn : q.noCollide = true) (hqc : q.condOK = true) (qargs : List Val)
+    (Z : List CM) (hZnd : Z.Nodup)
+    (hZcov : ∀ t, some t ∈ supp (q.simD pd P qargs) → ∃ z ∈ Z, t.choices = some z)
+    (hZshape : ∀ z ∈ Z, q.skel = some z.skel)
+    (ys : List CM) (hnd : ys.Nodup)
+    (hcov : ∀ t, some t ∈ supp (g.simD pd P targs) → ∃ y ∈ ys, t.choices = some y)
+    (hshape : ∀ y ∈ ys, g.skel = some y.skel)
+    (hmerge : ∀ z ∈ Z, ∃ m, smcMerge false obs z = some m ∧
+      ∀ y ∈ ys, y.agreeWith m = (y.agreeWith obs && y.agreeWith z))
+    (huniq : ∀ y ∈ ys, ∀ z1 ∈ Z, ∀ z2 ∈ Z,
+      y.agreeWith z1 = true → y.agreeWith z2 = true → z1 = z2)
+    (hdom : ∀ y ∈ ys, y.agreeWith obs = true → pmassOf (g.assessP pd y targs) ≠ 0 →
+      ∃ z ∈ Z, y.agreeWith z = true ∧ pmassOf (q.assessP pd z qargs) ≠ 0)
+    (w0 : K) (F : CM → Val → K) :
+    E (extendParticleD pd P cfg g targs obs (some (q, qargs)))
+        (optK fun tw => (w0 * tw.2) * obsF F tw.1)
+      = w0 * sumK (ys.map fun y =>
+          if y.agreeWith obs then massOf (g.assessP pd y targs) (F y) else 0) :=
+  extend_proposal_properly_weighted pd P cfg hpd hnorm g hc hv targs obs q hqn hqc qargs Z hZnd
+    hZcov hZshape ys hnd hcov hshape hmerge huniq hdom w0 F
+
+/-- the incremental kernel of the abstract theorem for a GFI step, `ψ ↦ Σ_x' q(x'|x) G(x,x') ψ(x')`,
+    IS the weighted expectation over the step's particle computation (`GfiStep.run`: `generate`, or
+    proposal + merge + `generate`); a run that raises carries weight 0 -/
+theorem C10_gfi_step_kernel (st : GfiStep R) (x : Part K R) (hx : x ≠ .raised)
+    (ψ : Part K R → K) :
+    E (st.kernel pd P cfg x) (fun x' => GfiStep.incrWeight x x' * ψ x')
+      = E (st.run pd P cfg x.trace?) (optK fun tw => tw.2 * ψ (.live tw.1 tw.2)) :=
+  GfiStep.kernel_E pd P cfg st x hx ψ
+
+/-- **SMC over generative functions is unbiased** — `C10_smc_unbiased` with the proposal kernels and
+    incremental weights that `init` / `extend` compute through the generative function interface
+    (`GfiStage.toStep`; default or custom proposals, any adaptive resampling trigger, any normalised
+    rejuvenation kernel).  The abstract hypothesis "the proposals are normalised" is discharged:
+    `generate` / `simulate` have total mass 1 for normalised primitives. -/
+theorem C10_gfi_pipeline_unbiased (hnorm : pd.Normalised) (stages : List (GfiStage K R))
+    (s : Sys K (Part K R)) (hN : (s.parts.length : K) ≠ 0)
+    (hk : ∀ sg ∈ stages, ∀ x, mass (sg.k x) = 1)
+    (htrig : ∀ sg ∈ stages, ∀ ws, sg.trigger ws = true → sumK ws ≠ 0) (φ : Part K R → K) :
+    E (runSteps (stages.map (GfiStage.toStep pd P cfg)) s) (fun s' => s'.est φ)
+      = s.est (pull (stages.map (GfiStage.toStep pd P cfg)) φ) :=
+  gfi_pipeline_unbiased pd P cfg hnorm stages s hN hk htrig φ
+
+/-- **`rejuvenation_smc`-style pipelines in closed form** (`RvStage`: `init` followed by any number of
+    `extend` steps, each stage's target arguments - and its proposal's, when it has a custom one -
+    being functions of the particle's previous observable trace (choice map, return value; the code
+    feeds the previous return value to the target and the previous choices to the proposal); adaptive
+    resampling with any trigger after every step).  From `N` fresh particles, for every function `φ`
+    of the last observable trace,
+    `E[acc · (1/N) Σ_i w_i φ(choices_i, retval_i)] = rvTarget stages φ none`: the nested sum, stage by
+    stage, over the completions `y_t ⊇ obs_t` of `p_t(y_t | outcome_{t-1})`, ending in `φ`.  The
+    proposals do not appear on the right-hand side.  `RvStage.OK`: the hypotheses of
+    `C10_init_default_properly_weighted` resp. `C10_init_proposal_properly_weighted` at every stage. -/
+theorem C10_gfi_sequence_unbiased (hpd : pd.WF) (hnorm : pd.Normalised)
+    (stages : List (RvStage K)) (hok : ∀ rs ∈ stages, rs.OK pd P cfg) (N : Nat)
+    (hN : (N : K) ≠ 0) (htrig : ∀ rs ∈ stages, ∀ ws, rs.trigger ws = true → sumK ws ≠ 0)
+    (φ : Option (CM × Val) → K) :
+    E (runSteps (stages.map fun rs => (rs.toStage (R := R)).toStep pd P cfg) (startSys N))
+        (fun s' => s'.est (retvalTest φ))
+      = rvTarget pd stages φ none :=
+  gfi_sequence_unbiased pd P cfg hpd hnorm stages hok N hN htrig φ
+
+/-- with `φ = 1`: **`E[exp(log_marginal_likelihood())]` = the marginal likelihood of the whole
+    observation sequence** under the sequence model the stages define -/
+theorem C10_gfi_sequence_lml (hpd : pd.WF) (hnorm : pd.Normalised)
+    (stages : List (RvStage K)) (hok : ∀ rs ∈ stages, rs.OK pd P cfg) (N : Nat)
+    (hN : (N : K) ≠ 0) (htrig : ∀ rs ∈ stages, ∀ ws, rs.trigger ws = true → sumK ws ≠ 0) :
+    E (runSteps (stages.map fun rs => (rs.toStage (R := R)).toStep pd P cfg) (startSys N))
+        (fun s' => s'.lml)
+      = rvTarget pd stages (fun _ => 1) none :=
+  gfi_sequence_lml pd P cfg hpd hnorm stages hok N hN htrig
+
+end C10Init
+
+/-! ### non-vacuity and counterexamples (exact rationals, primitives `lawExPD`)
+
+  target `initExTarget`: `a ~ coin(1/3); b ~ coin(1/4 + a/2); y ~ coin(1/8 + a/2 + b/4)`, constraint
+  `{y: 1}`; evidence `P(y = 1) = 2/3·(3/4·1/8 + 1/4·3/8) + 1/3·(1/4·5/8 + 3/4·7/8) = 19/48`. -/
+
+/-- default proposal: all hypotheses of `C10_init_default_evidence` /
+    `C10_init_default_properly_weighted`, and both sides computed; with the observable
+    `F(choices, retval) = retval` too -/
+example : lawExPD.WF ∧ lawExPD.Normalised ∧ initExTarget.condOK = true ∧
+    initExTarget.vmapOK Cfg.asis = true ∧ initExYs.Nodup ∧
+    (∀ t : Tr Int, some t ∈ supp (initExTarget.simD lawExPD lawExP []) →
+      ∃ y ∈ initExYs, t.choices = some y) ∧
+    (∀ y ∈ initExYs, initExTarget.skel = some y.skel) ∧
+    E (initParticleD lawExPD lawExP Cfg.asis initExTarget [] initExObs none)
+      (optK fun tw => tw.2) = 19/48 ∧
+    sumK (initExYs.map fun y => if y.agreeWith initExObs
+      then pmassOf (initExTarget.assessP lawExPD y []) else 0) = 19/48 ∧
+    E (initParticleD lawExPD lawExP Cfg.asis initExTarget [] initExObs none)
+      (optK fun tw => tw.2 * obsF (fun _ r => r.toRat) tw.1) = 53/96 ∧
+    sumK (initExYs.map fun y => if y.agreeWith initExObs
+      then massOf (initExTarget.assessP lawExPD y []) (fun r => r.toRat) else 0) = 53/96 := by
+  refine ⟨lawExPD_wf, lawExPD_normalised, by decide +kernel, by decide +kernel, by decide +kernel,
+    covers_of_coversB _ _ (by decide +kernel), by decide +kernel, by decide +kernel,
+    by decide +kernel, by decide +kernel, by decide +kernel⟩
+
+/-- PARTIAL proposal (`initExQa` proposes `a` only; `b` is filled by `generate` from the prior): all
+    hypotheses of `C10_init_proposal_properly_weighted` (the merge hypothesis through
+    `C10_merge_disjoint`), and the left-hand sides computed: `E[w] = 19/48`, `E[w · retval] = 53/96`,
+    the same values as for the default proposal -/
+example : initExQa.noCollide = true ∧ initExQa.condOK = true ∧ initExZa.Nodup ∧
+    (∀ t : Tr Int, some t ∈ supp (initExQa.simD lawExPD lawExP []) →
+      ∃ z ∈ initExZa, t.choices = some z) ∧
+    (∀ z ∈ initExZa, initExQa.skel = some z.skel) ∧
+    (∀ z ∈ initExZa, CM.disjB initExObs z = true) ∧
+    (∀ y ∈ initExYs, ∀ z1 ∈ initExZa, ∀ z2 ∈ initExZa,
+      y.agreeWith z1 = true → y.agreeWith z2 = true → z1 = z2) ∧
+    (∀ y ∈ initExYs, y.agreeWith initExObs = true →
+      pmassOf (initExTarget.assessP lawExPD y []) ≠ 0 →
+      ∃ z ∈ initExZa, y.agreeWith z = true ∧ pmassOf (initExQa.assessP lawExPD z []) ≠ 0) ∧
+    E (initParticleD lawExPD lawExP Cfg.asis initExTarget [] initExObs (some (initExQa, [])))
+      (optK fun tw => tw.2) = 19/48 ∧
+    E (initParticleD lawExPD lawExP Cfg.asis initExTarget [] initExObs (some (initExQa, [])))
+      (optK fun tw => tw.2 * obsF (fun _ r => r.toRat) tw.1) = 53/96 := by
+  refine ⟨by decide +kernel, by decide +kernel, by decide +kernel,
+    covers_of_coversB _ _ (by decide +kernel), by decide +kernel, by decide +kernel,
+    by decide +kernel, by decide +kernel, by decide +kernel, by decide +kernel⟩
+
+/-- partial proposal for the DEPENDENT latent (`initExQb` proposes `b` only; `a`, on which `b`'s
+    prior depends, is filled by `generate`): hypotheses and `E[w] = 19/48` -/
+example : initExQb.noCollide = true ∧ initExQb.condOK = true ∧ initExZb.Nodup ∧
+    (∀ t : Tr Int, some t ∈ supp (initExQb.simD lawExPD lawExP []) →
+      ∃ z ∈ initExZb, t.choices = some z) ∧
+    (∀ z ∈ initExZb, initExQb.skel = some z.skel) ∧
+    (∀ z ∈ initExZb, CM.disjB initExObs z = true) ∧
+    (∀ y ∈ initExYs, ∀ z1 ∈ initExZb, ∀ z2 ∈ initExZb,
+      y.agreeWith z1 = true → y.agreeWith z2 = true → z1 = z2) ∧
+    (∀ y ∈ initExYs, y.agreeWith initExObs = true →
+      pmassOf (initExTarget.assessP lawExPD y []) ≠ 0 →
+      ∃ z ∈ initExZb, y.agreeWith z = true ∧ pmassOf (initExQb.assessP lawExPD z []) ≠ 0) ∧
+    E (initParticleD lawExPD lawExP Cfg.asis initExTarget [] initExObs (some (initExQb, [])))
+      (optK fun tw => tw.2) = 19/48 := by
+  refine ⟨by decide +kernel, by decide +kernel, by decide +kernel,
+    covers_of_coversB _ _ (by decide +kernel), by decide +kernel, by decide +kernel,
+    by decide +kernel, by decide +kernel, by decide +kernel⟩
+
+/-- FULL proposal (`initExQab` proposes both latents, `b` depending on `a`): hypotheses and
+    `E[w] = 19/48`; and the same proposal in `extend` (proposal second in the merge) -/
+example : initExQab.noCollide = true ∧ initExQab.condOK = true ∧ initExZab.Nodup ∧
+    (∀ t : Tr Int, some t ∈ supp (initExQab.simD lawExPD lawExP []) →
+      ∃ z ∈ initExZab, t.choices = some z) ∧
+    (∀ z ∈ initExZab, initExQab.skel = some z.skel) ∧
+    (∀ z ∈ initExZab, CM.disjB initExObs z = true) ∧
+    (∀ y ∈ initExYs, ∀ z1 ∈ initExZab, ∀ z2 ∈ initExZab,
+      y.agreeWith z1 = true → y.agreeWith z2 = true → z1 = z2) ∧
+    (∀ y ∈ initExYs, y.agreeWith initExObs = true →
+      pmassOf (initExTarget.assessP lawExPD y []) ≠ 0 →
+      ∃ z ∈ initExZab, y.agreeWith z = true ∧ pmassOf (initExQab.assessP lawExPD z []) ≠ 0) ∧
+    E (initParticleD lawExPD lawExP Cfg.asis initExTarget [] initExObs (some (initExQab, [])))
+      (optK fun tw => tw.2) = 19/48 ∧
+    E (extendParticleD lawExPD lawExP Cfg.asis initExTarget [] initExObs (some (initExQab, [])))
+      (optK fun tw => tw.2) = 19/48 ∧
+    E (extendParticleD lawExPD lawExP Cfg.asis initExTarget [] initExObs (some (initExQa, [])))
+      (optK fun tw => ((2 : ℚ) * tw.2) * obsF (fun _ r => r.toRat) tw.1) = 2 * (53/96) := by
+  refine ⟨by decide +kernel, by decide +kernel, by decide +kernel,
+    covers_of_coversB _ _ (by decide +kernel), by decide +kernel, by decide +kernel,
+    by decide +kernel, by decide +kernel, by decide +kernel, by decide +kernel, by decide +kernel⟩
+
+/-- the weight formula on one outcome: proposal `a = 1` (`q(z) = 3/5`), merged constraint
+    `{a: 1, y: 1}`, outcome `y = {a: 1, b: 1, y: 1}` with `b` FILLED by `generate`
+    (`fillProb = P(b = 1 | a = 1) = 3/4`), joint `p(y) = 1/3 · 3/4 · 7/8 = 7/32`: on every run ending
+    in `y` the total weight is `W = (1/3 · 7/8) / (3/5) = 35/72`, and
+    `W · q(z) · fillProb = 35/72 · 3/5 · 3/4 = 7/32 = p(y)` (hypotheses and both sides of
+    `C10_init_proposal_weight_formula` / `_run`), whereas `p(y) / q(z) = 35/96 ≠ W` -/
+example :
+    smcMerge true initExObs (.node (.cons "a" (.leaf (.num 1)) .nil))
+      = some (.node (.cons "a" (.leaf (.num 1)) (.cons "y" (.leaf (.num 1)) .nil))) ∧
+    initExQa.assessP lawExPD (.node (.cons "a" (.leaf (.num 1)) .nil)) [] = some (3/5, .num 1) ∧
+    initExTarget.skel = some (initExY 1 1 1).skel ∧ initExTarget.condOK = true ∧
+    (∀ tw : Tr Int × ℚ, some tw ∈ supp (afterProposalD lawExPD lawExP Cfg.asis true initExTarget []
+        initExObs initExQa [] (.node (.cons "a" (.leaf (.num 1)) .nil))) →
+      (decide (tw.1.choices = some (initExY 1 1 1) → tw.2 = 35/72)) = true) ∧
+    fillProb lawExPD (lawExP) Cfg.asis initExTarget
+      (some (.node (.cons "a" (.leaf (.num 1)) (.cons "y" (.leaf (.num 1)) .nil)))) []
+      (initExY 1 1 1) = 3/4 ∧
+    pmassOf (initExTarget.assessP lawExPD (initExY 1 1 1) []) = 7/32 ∧
+    (35/72 : ℚ) * (3/5 * (3/4)) = 7/32 ∧ (7/32 : ℚ) / (3/5) ≠ 35/72 := by
+  refine ⟨by decide +kernel, by decide +kernel, by decide +kernel, by decide +kernel,
+    forall_supp_of_allB _ _ (by decide +kernel), by decide +kernel, by decide +kernel,
+    by norm_num, by norm_num⟩
+
+/-- **The regression's weight formula is NOT properly weighted for a partial proposal.**
+    `wrongParticleD` computes `log_weight = proposal_score − trace.get_score()`, i.e. the FULL joint
+    `p(y)` of the generated trace divided by the proposal mass `q(z)` (seeded change C10_3).  With the
+    proposal for `a` only, the prior mass of the site `b` that `generate` fills is not divided out:
+    `E[w] = 23/96 ≠ 19/48`; with the proposal for `b` only `E[w] = 25/144 ≠ 19/48`; only when the
+    proposal and the constraints cover EVERY address (`initExQab`) the two formulas coincide
+    (`E[w] = 19/48`).  The formula of the code, `generate weight / q(z)`, gives the evidence `19/48`
+    in all three cases (examples above). -/
+theorem C10_init_wrong_formula_cex :
+    E (wrongParticleD lawExPD lawExP Cfg.asis true initExTarget [] initExObs initExQa [])
+      (optK fun tw => tw.2) = 23/96 ∧
+    E (wrongParticleD lawExPD lawExP Cfg.asis true initExTarget [] initExObs initExQb [])
+      (optK fun tw => tw.2) = 25/144 ∧
+    E (wrongParticleD lawExPD lawExP Cfg.asis true initExTarget [] initExObs initExQab [])
+      (optK fun tw => tw.2) = 19/48 ∧
+    E (initParticleD lawExPD lawExP Cfg.asis initExTarget [] initExObs (some (initExQa, [])))
+      (optK fun tw => tw.2) = 19/48 ∧
+    sumK (initExYs.map fun y => if y.agreeWith initExObs
+      then pmassOf (initExTarget.assessP lawExPD y []) else 0) = 19/48 ∧
+    (23/96 : ℚ) ≠ 19/48 ∧ (25/144 : ℚ) ≠ 19/48 := by
+  refine ⟨by decide +kernel, by decide +kernel, by decide +kernel, by decide +kernel,
+    by decide +kernel, by norm_num, by norm_num⟩
+
+/-- **The disjointness hypothesis cannot be dropped**: a proposal that also proposes the OBSERVED
+    address (`initExQay`: `a ~ coin(3/5); y ~ coin(1/2)`) has its `y` overridden by the constraint in
+    the merge of `init`, but its mass is still divided out: `E[w] = 19/24`, twice the evidence (once
+    per value of the discarded draw).  `CM.disjB` rejects it. -/
+theorem C10_init_overlap_cex :
+    E (initParticleD lawExPD lawExP Cfg.asis initExTarget [] initExObs (some (initExQay, [])))
+      (optK fun tw => tw.2) = 19/24 ∧
+    CM.disjB initExObs
+      (.node (.cons "a" (.leaf (.num 0)) (.cons "y" (.leaf (.num 0)) .nil))) = false := by
+  refine ⟨by decide +kernel, by decide +kernel⟩
+
+/-- **Domination cannot be dropped**: the proposal `a ~ coin(1)` never proposes `a = 0`, although
+    the completions of the constraint with `a = 0` have non-zero joint mass (`hdom` fails); the
+    particle then only accounts for `a = 1`: `E[w] = P(a = 1, y = 1) = 1/3 · 13/16 = 13/48 < 19/48`. -/
+theorem C10_init_no_domination_cex :
+    E (initParticleD lawExPD lawExP Cfg.asis initExTarget [] initExObs (some (initExQa1, [])))
+      (optK fun tw => tw.2) = 13/48 ∧
+    ¬ (∀ y ∈ initExYs, y.agreeWith initExObs = true →
+      pmassOf (initExTarget.assessP lawExPD y []) ≠ 0 →
+      ∃ z ∈ initExZa, y.agreeWith z = true ∧ pmassOf (initExQa1.assessP lawExPD z []) ≠ 0) := by
+  refine ⟨by decide +kernel, by decide +kernel⟩
+
+/-- a two-stage sequence model (`seqExStep`: `x ~ coin(1/4 + prev/2); y ~ coin(1/8 + x/2)`, the
+    return value `x` is the next stage's argument), observations `y₁ = 1, y₂ = 0`: all hypotheses of
+    `C10_gfi_sequence_lml`, the right-hand side computed (`19/128`), and the left-hand side computed
+    for `N = 2` particles by running the particle system (init, resample-if-needed, extend,
+    resample-if-needed) exhaustively - with the default proposal in both stages, and with the custom
+    proposal `seqExQ` (`x ~ coin(3/5)`) in the `extend` stage -/
+example : lawExPD.WF ∧ lawExPD.Normalised ∧
+    (∀ rs ∈ [seqExStage 1, seqExStage 0], rs.OK lawExPD lawExP Cfg.asis) ∧
+    (∀ rs ∈ [seqExStage 1, seqExStageQ 0], rs.OK lawExPD lawExP Cfg.asis) ∧
+    (∀ rs ∈ [seqExStage 1, seqExStage 0, seqExStageQ 0], ∀ ws, rs.trigger ws = true → sumK ws ≠ 0) ∧
+    rvTarget lawExPD [seqExStage 1, seqExStage 0] (fun _ => 1) none = 19/128 ∧
+    rvTarget lawExPD [seqExStage 1, seqExStageQ 0] (fun _ => 1) none = 19/128 ∧
+    E (runSteps ([seqExStage 1, seqExStage 0].map fun rs =>
+          (rs.toStage (R := Int)).toStep lawExPD lawExP Cfg.asis) (startSys 2))
+      (fun s' => s'.lml) = 19/128 ∧
+    E (runSteps ([seqExStage 1, seqExStageQ 0].map fun rs =>
+          (rs.toStage (R := Int)).toStep lawExPD lawExP Cfg.asis) (startSys 2))
+      (fun s' => s'.lml) = 19/128 := by
+  have hys : ∀ r : Option (CM × Val), seqExYs.Nodup ∧
+      (∀ t : Tr Int, some t ∈ supp (seqExStep.simD lawExPD lawExP [(r.map (·.2)).getD (.num 0)]) →
+        ∃ y ∈ seqExYs, t.choices = some y) ∧
+      (∀ y ∈ seqExYs, seqExStep.skel = some y.skel) := fun r =>
+    ⟨by decide +kernel, covers_of_coversB _ _ rfl, by decide +kernel⟩
+  have hok : ∀ o : Rat, (seqExStage o).OK lawExPD lawExP Cfg.asis := fun o =>
+    ⟨show seqExStep.condOK = true by decide +kernel,
+      show seqExStep.vmapOK Cfg.asis = true by decide +kernel, hys,
+      fun qa h => by simp [seqExStage] at h⟩
+  have hokQ : (seqExStageQ 0).OK lawExPD lawExP Cfg.asis := by
+    refine ⟨show seqExStep.condOK = true by decide +kernel,
+      show seqExStep.vmapOK Cfg.asis = true by decide +kernel, hys, ?_⟩
+    intro qa h
+    have hqa : qa = (seqExQ, fun _ => []) := by
+      simp only [seqExStageQ, Option.some.injEq] at h
+      exact h.symm
+    subst hqa
+    refine ⟨by decide +kernel, by decide +kernel, fun r =>
+      ⟨show seqExZ.Nodup by decide +kernel, covers_of_coversB _ _ rfl,
+        show ∀ z ∈ seqExZ, seqExQ.skel = some z.skel by decide +kernel,
+        hmerge_of_disjoint false _ seqExZ seqExYs (by decide +kernel),
+        show ∀ y ∈ seqExYs, ∀ z1 ∈ seqExZ, ∀ z2 ∈ seqExZ,
+          y.agreeWith z1 = true → y.agreeWith z2 = true → z1 = z2 by decide +kernel, ?_⟩⟩
+    have hd : ∀ y ∈ seqExYs, ∃ z ∈ seqExZ, y.agreeWith z = true
+        ∧ pmassOf (seqExQ.assessP lawExPD z []) ≠ 0 := by decide +kernel
+    intro y hy _ _
+    exact hd y hy
+  have htr : ∀ ws : List Rat,
+      (decide (sumK ws ≠ 0) && decide (sumK ws < 1/2)) = true → sumK ws ≠ 0 := by
+    intro ws h
+    simp only [Bool.and_eq_true, decide_eq_true_eq] at h
+    exact h.1
+  refine ⟨lawExPD_wf, lawExPD_normalised, ?_, ?_, ?_, by decide +kernel, by decide +kernel,
+    by decide +kernel, by decide +kernel⟩
+  · intro rs hrs
+    simp only [List.mem_cons, List.not_mem_nil, or_false] at hrs
+    rcases hrs with rfl | rfl <;> exact hok _
+  · intro rs hrs
+    simp only [List.mem_cons, List.not_mem_nil, or_false] at hrs
+    rcases hrs with rfl | rfl
+    · exact hok _
+    · exact hokQ
+  · intro rs hrs
+    simp only [List.mem_cons, List.not_mem_nil, or_false] at hrs
+    rcases hrs with rfl | rfl | rfl <;> exact htr
+
+end Genjax.Smc
+/-! ==============================================================================================
+    END work package `c10init`
+    ============================================================================================== -/
